@@ -255,7 +255,7 @@ def opspecs(form, fields):
                 used.add(fld)
             elif re.fullmatch(r"#(\d+)", d):
                 spec = "(.immConst %s)" % d[1:]
-            elif re.fullmatch(r"#([A-Za-z_0-9]+)", d) and d[1:] in fnames and not imm_attr and d[1:] not in ("n",):
+            elif re.fullmatch(r"#([A-Za-z_0-9]+)", d) and d[1:] in fnames and not imm_attr and d[1:] not in ("n", "sysreg"):
                 fld = d[1:]
                 if fld.endswith("S") and fld.startswith("imm"):
                     spec = "(.immS %s)" % q(fld)
